@@ -9,6 +9,10 @@
 (***************************************************************************)
 EXTENDS Integers, Sequences, FiniteSets
 Admitted(file, universe) == IF file.enable THEN universe \cap file.list ELSE universe
-\* every history of edits is allowed: the next file state is arbitrary
-Edit(file, enable, list) == [enable |-> enable, list |-> list]
+\* every history of edits is allowed: the next file state is arbitrary and does not depend on the previous one.
+\* A key that is absent from the file (or commented out) has its default: switch off, nobody listed.
+FileOf(form, enable, list) ==
+  [enable |-> IF form \in {"noenable", "commented"} THEN FALSE ELSE enable,
+   list   |-> IF form \in {"nolist", "commented"} THEN {} ELSE list]
+Edit(file, form, enable, list) == FileOf(form, enable, list)
 =============================================================================
